@@ -104,20 +104,23 @@ def obligations(tier: str):
         cfg.setdefault("fuel", 200)
         obs.append(Ob("reach", cfg, name=name, timeout=timeout * (8 if T else 1), path_timeout=60, smoke=6))
 
-    for fxn, depths in (("f0", (1, 2, 3)), ("f1s", (1, 2) + ((3,) if T else ())), ("f3", (1, 2, 3)), ("f4", (2, 3))):
+    for fxn, depths in (("f0", (1, 2, 3) + ((4, 5) if T else ())), ("f1s", (1, 2) + ((3,) if T else ())), ("f3", (1, 2, 3) + ((4,) if T else ())), ("f4", (2, 3) + ((4,) if T else ()))):
         for d in depths:
             add(f"grow_{fxn}_d{d}", fixture=fxn, creator="grow", max_depth=d)
-    for d in (2, 3, 4):
+    for d in (2, 3, 4) + ((5, 6) if T else ()):
         add(f"grow_f10_d{d}", fixture="f10", creator="grow", max_depth=d)
-    for d in (2, 3):
+    for d in (2, 3) + ((4,) if T else ()):
         add(f"grow_f9_d{d}", fixture="f9", creator="grow", max_depth=d)
         add(f"pigrow_f9_d{d}", fixture="f9", creator="pi", max_depth=d)
     add("grow_f2lst_d2", fixture="f2", grammar_fn="grammar_lst", classes=["Leaf", "Lst"], creator="grow", max_depth=2)
     add("grow_f5RD_d1", fixture="f5", grammar_fn="g_RD", classes=["RD"], creator="grow", max_depth=1)
+    if T:
+        add("grow_f2lst_d3", fixture="f2", grammar_fn="grammar_lst", classes=["Leaf", "Lst"], creator="grow", max_depth=3)
+        add("grow_f3n_d2", fixture="f3n", creator="grow", max_depth=2) if False else None
     for fxn, depths in (("f0", (1, 2, 3)), ("f1s", (1, 2) + ((3,) if T else ()))):
         for d in depths:
             add(f"full_{fxn}_d{d}", fixture=fxn, creator="full_initializer", max_depth=d)
             add(f"pigrow_{fxn}_d{d}", fixture=fxn, creator="pi", max_depth=d)
     add("pigrow_f3_d3", fixture="f3", creator="pi", max_depth=3)
     add("pigrow_f4_d3", fixture="f4", creator="pi", max_depth=3)
-    return obs
+    return [o for o in obs if o is not None]
